@@ -1,5 +1,6 @@
 import Driver.Codec
 import Cirbo.Model.Norm
+import Cirbo.Model.DbLookup
 import Cirbo.Model.Codec
 import Cirbo.Model.Checkers
 /-! `normalize` / `denormalize` / `db_entry` requests -/
@@ -12,6 +13,15 @@ def parseRows (j : Json) : Except String (List Row) := do
 
 def jRow (r : Row) : Json := Json.str (String.ofList (r.map (fun b => if b then '1' else '0')))
 def jNats (l : List Nat) : Json := Json.arr (l.map (fun (n : Nat) => (Json.num (n : JsonNumber)))).toArray
+
+def parseModel (j : Json) : Except String (List (List TEntry)) := do
+  (← strs j).mapM (fun s => pure (s.toList.map (fun ch => if ch == '*' then none else some (ch == '1'))))
+
+/-- the sizes found per completion (`null` = not stored), in the order of the completions -/
+def parseFound (j : Json) : Except String (List (Option Nat)) := do
+  (← j.getArr?).toList.mapM (fun x => match x with
+    | Json.null => pure none
+    | _ => do pure (some (← x.getNat?)))
 
 def jInfo (i : Info) : Json := Json.mkObj [
   ("negations", Json.arr (i.negations.map Json.bool).toArray), ("permutation", jNats i.permutation),
@@ -32,6 +42,23 @@ def handle (op : String) (j : Json) : Except String Json := do
   | "denorm_rows" => do
     let info ← parseInfo (← j.getObjVal? "info")
     pure (ofExcept (fun rs => Json.arr (rs.map jRow).toArray) (denormRows info (← parseRows (← j.getObjVal? "stored"))))
+  | "completions" => do
+    let m ← parseModel (← j.getObjVal? "tt")
+    pure (Json.mkObj [("ok", Json.arr ((completions m).map (fun t => Json.arr (t.map jRow).toArray)).toArray)])
+  | "lookup_dc" => do
+    let m ← parseModel (← j.getObjVal? "tt")
+    let found ← parseFound (← j.getObjVal? "found")
+    let comps := completions m
+    -- the stored "circuit" of the k-th completion is k itself, its size is the size the code reported
+    let lookup : List Row → Option Nat := fun t =>
+      let k := comps.idxOf t
+      match found.getD k none with
+      | some _ => some k
+      | none => none
+    let size : Nat → Nat := fun k => (found.getD k none).getD 0
+    pure (Json.mkObj [("ok", match lookupDC lookup size m with
+      | some k => (Json.num (k : JsonNumber))
+      | none => Json.null)])
   | _ => throw "bad norm op"
 
 end NormDrv
